@@ -42,10 +42,13 @@ def LexSt.isArithChar (st : LexSt) (c : Char) : Bool :=
 
 def isParenChar (c : Char) : Bool := c == '(' || c == ')' || c == '{' || c == '}'
 
-/-- `looks_like_expression`: every maximal ASCII-alphanumeric run (including empty ones) is a field
+/-- a character of a name: ASCII letter, digit or `_` (D82 fix: `mp3_bitrate` is one name) -/
+def isNameChar (c : Char) : Bool := isAsciiAlnum c || c == '_'
+
+/-- `looks_like_expression`: every maximal run of name characters (including empty ones) is a field
     name, a function name or an `i64`. -/
 def looksLikeExpression (s : Str) : Bool :=
-  (splitBy (fun c => !isAsciiAlnum c) s).all fun p =>
+  (splitBy (fun c => !isNameChar c) s).all fun p =>
     (Field.ofStr? p).isSome || (Function.ofStr? p).isSome || (parseI64? p).isSome
 
 /-- DATE_ALIKE_REGEX `(\d{4})-?(\d{2})?`, leftmost match; returns (year digits, optional month digits).
@@ -166,7 +169,7 @@ def nextLexem (st : LexSt) : Option Lexem × LexSt :=
     let isFrom := l == .from_
     let isComma := l == .comma
     let isOp := match l with | .op _ => true | _ => false
-    (some l, { st2 with psr := isFrom || (isComma && !st2.beforeFrom && !st2.afterWhere),
+    (some l, { st2 with psr := isFrom || (isComma && !st2.beforeFrom && !st2.afterWhere && !st2.afterBy),   -- D81 fix: no root after a comma of ORDER BY / GROUP BY
                         afterOperator := isOp })
   match mode with
   | .sq | .dq | .bq => fin (.str s) st1
